@@ -276,12 +276,13 @@ class DictList(list):
         other : iterable
             other must contain only unique id's present in the list
         """
-        other = list(other)
-        # make sure every item is present before removing any of them
-        for item in other:
-            self.index(item)
-        for item in other:
-            self.remove(item)
+        # look up every item first, so that nothing is removed when one of
+        # them is missing or listed twice
+        positions = [self.index(item) for item in other]
+        if len(set(positions)) != len(positions):
+            raise ValueError("items to remove must be unique")
+        for position in sorted(positions, reverse=True):
+            self.pop(position)
         return self
 
     def __add__(self, other: Iterable[Object]) -> "DictList":
